@@ -59,8 +59,8 @@ for d in sorted(glob.glob(os.path.join(VERIF, "seeded", "*"))):
                 hdr = f"# regression input harvested from the seeded change {name} (passes on the unchanged tree)\n"
                 open(os.path.join(dst_dir, f"seeded_{name}.txt"), "w").write(hdr + txt)
     shutil.rmtree(scratch, ignore_errors=True)
-    for w in glob.glob("/tmp/verif-scratch-*"):
-        shutil.rmtree(w, ignore_errors=True)
+    import hashlib
+    shutil.rmtree("/tmp/verif-scratch-" + hashlib.sha256(os.path.realpath(scratch).encode()).hexdigest()[:10], ignore_errors=True)
 
 with open(os.path.join(VERIF, "seeded", "RESULTS.md"), "w" if not args else "a") as f:
     if not args:
